@@ -47,6 +47,17 @@ theorem C02_reader_accepts_all_conformant_validated (s : St) (hfit : IntsFit s) 
   GeffProps.C02.C02_reader_accepts_all_conformant_validated_partial s hfit G h
     (C02_validator_accepts_conformant s G h hu64 hkeys haxes)
 
+/-- **the side conditions are exactly the gap between the specification and the validator** — on every
+store the specification assigns a graph to, whose metadata dicts have one entry per key
+(`MetaKeysUnique`, true of every JSON object): C04's model of `validate_structure` returns normally **iff**
+the three side conditions hold.  So nothing else separates `denote`-conformance from C04-`Conformant`, and
+each of the three is necessary on every such store (not only on the examples `needs_*` below). -/
+theorem C02_validator_accepts_conformant_iff (s : St) (G : Graph) (h : denote s = some G)
+    (huniq : MetaKeysUnique s = true) :
+    Geff.Bridge.validate s = .ok () ↔
+      (OffsetTablesU64 s = true ∧ MetaKeysArePropGroups s = true ∧ AxesAreNodeProps s = true) :=
+  validate_iff_conditions s G h huniq
+
 /-! ## non-vacuity, and necessity of each side condition (evaluations) -/
 
 section Examples
@@ -76,6 +87,7 @@ def good : St := mk .u64 (some ["t"]) []
 example : (denote good).isSome = true := by decide
 example : IntsFit good := intsFit_of_bool _ (by decide)
 example : OffsetTablesU64 good = true ∧ MetaKeysArePropGroups good = true ∧ AxesAreNodeProps good = true := by decide
+example : MetaKeysUnique good = true ∧ MetaKeysUnique GeffProps.C02.exStore = true := by decide
 /-- … and an evaluation of the conclusion on it: the validator accepts, the validated reader returns the
 denoted graph -/
 example : Geff.Bridge.validate good = .ok () := by rfl
